@@ -622,6 +622,7 @@ func corpusGM(cfg *config) []string {
 		"read wf " + hexBytes([]byte{'D', 'E', 'V', 'C', 0, 1, 0, 100, 'D', 'V', 'I', 'D', 'L', 4, 0, 1, 0, 0, 0, 1}),
 		"read wf " + hexBytes(nest("STRM", klv("SCAL", 's', 2, 0, nil), klv("ACCL", 's', 6, 1, []byte{0, 1, 0, 2, 0, 3}))),
 		"read wf " + hexBytes(nest("STRM", klv("TYPE", 'c', 1, 9, []byte("BBSSSSSBB")), klv("FACE", '?', 14, 1, []byte{1, 90, 0, 7, 0, 10, 0, 20, 0, 30, 0, 40, 55, 66}))),
+		"read mut " + hexBytes(nest("STRM", klv("TYPE", 'c', 1, 5, []byte("Lffff")), append([]byte{'F', 'A', 'C', 'E', 0, 20, 0, 1}, klv("ABCD", 'B', 1, 12, make([]byte, 12))...))),
 		"read wf " + hexBytes(nil),
 		"read mut " + hexBytes([]byte{1, 2, 3}),
 	}
